@@ -200,7 +200,8 @@ Section Insert.
       insert H k v h (LLeaf idx sd) s = (Ok a, s') /\
       Inv_tree H s' (plug (map set_dirty c) (ins_sub sd a b idx k v h kref vr hr)) /\
       t_insert H k v h (TKey kref sd) (Some (erase (plug c (ILeaf idx kref vr hr))))
-      = (true, Some (erase (plug (map set_dirty c) (ins_sub sd a b idx k v h kref vr hr)))).
+      = (true, Some (erase (plug (map set_dirty c) (ins_sub sd a b idx k v h kref vr hr)))) /\
+      nblocks s' <= nblocks s + 2.
   Proof.
     intros HI Hc Hroom Hk Hv Hh Hkfresh Hhfresh. set (old := ILeaf idx kref vr hr) in *.
     destruct (inv_plug_facts H _ _ _ _ _ _ HI)
@@ -406,7 +407,7 @@ Section Insert.
     { rewrite Hh7, Hh6, Hh5, Hh4, Hh3, Hh2, Hh1. reflexivity. }
     assert (Hn7' : nblocks s7 = nblocks s2) by congruence.
     assert (Hf7' : free s7 = free s2) by congruence.
-    split; [|].
+    split; [|split; [|lia]].
     - constructor.
       + (* rep *)
         apply rep_plug. rewrite ctx_par_dirty, Hsub_idx. split; [|exact Hctx7].
